@@ -308,6 +308,8 @@ type armWalker struct {
 	loopVar map[string]string // index or item variable -> slice path
 	itemCopy map[string]bool  // range item variables that are copies of struct elements
 	selfUnion []string
+	dead      bool     // an unconditional return has been passed: later statements of the arm never run
+	retGuards []string // guards under which an earlier statement returned
 }
 
 type visit struct {
@@ -356,10 +358,28 @@ func (w *armWalker) pathOf(e ast.Expr) (path string, copy bool, ok bool) {
 }
 
 func (w *armWalker) stmt(s ast.Stmt, guard string) {
+	if w.dead {
+		return
+	}
+	for _, rg := range w.retGuards {
+		if !strings.Contains(guard, "!"+rg) {
+			if guard == "true" {
+				guard = "!" + rg
+			} else {
+				guard = guard + "&!" + rg
+			}
+		}
+	}
 	switch x := s.(type) {
 	case *ast.ReturnStmt:
 		if len(x.Results) != 0 {
 			w.bad = append(w.bad, w.pos(x)+": return with values")
+		}
+		// everything after a return is skipped: unconditionally (the rest of the arm is dead) or under the return's guard
+		if guard == "true" {
+			w.dead = true
+		} else {
+			w.retGuards = append(w.retGuards, "?returned earlier under "+strings.ReplaceAll(guard, "&", " and "))
 		}
 	case *ast.ExprStmt:
 		call, ok := x.X.(*ast.CallExpr)
